@@ -2,6 +2,7 @@ package core
 
 import (
 	"fmt"
+	"strings"
 	"go/ast"
 	"go/token"
 	"go/types"
@@ -233,7 +234,7 @@ func (st *inlineState) callee(call *ast.CallExpr, depth int) *FuncDecl {
 			return cfd
 		}
 	}
-	if fn == nil || fn.Pkg() != st.root.Obj.Pkg() || st.stack[fn] || st.count[fn] >= inlineMaxPerFunc {
+	if fn == nil || fn.Pkg() != st.root.Obj.Pkg() || st.stack[fn] || st.count[fn] >= inlineMaxPerFunc || st.p.anchors[fn] {
 		return nil
 	}
 	// method values / interface methods are not calls of a declared body
@@ -661,6 +662,7 @@ func (st *inlineState) expand(call *ast.CallExpr, cfd *FuncDecl, depth int, tail
 	sig := fn.Type().(*types.Signature)
 	subst := st.substitute(call, cfd, body)
 	st.block(body, depth+1)
+	st.normalise(body)
 	pre := st.bind(call, cfd, subst)
 	// named results are ordinary locals of the callee
 	for i := 0; i < sig.Results().Len(); i++ {
@@ -1156,6 +1158,10 @@ func (st *inlineState) normalise(body *ast.BlockStmt) {
 			}
 		case *ast.ForStmt:
 			blk(x.Body)
+			if r := st.indexToRange(x); r != nil {
+				st.changed = true
+				return []ast.Stmt{r}
+			}
 		case *ast.RangeStmt:
 			blk(x.Body)
 		case *ast.LabeledStmt:
@@ -1197,23 +1203,54 @@ func (st *inlineState) splitParallel(x *ast.AssignStmt) []ast.Stmt {
 	if len(x.Lhs) < 2 || len(x.Lhs) != len(x.Rhs) || (x.Tok != token.ASSIGN && x.Tok != token.DEFINE) {
 		return nil
 	}
-	// right-hand side j must not read a variable written at an earlier position
-	written := map[*types.Var]bool{}
+	// right-hand side j must not read a location written at an earlier position
+	// (locations are field paths of a variable; a path conflicts with its prefixes)
+	type loc struct {
+		v    *types.Var
+		path string
+	}
+	var written []loc
+	conflict := func(v *types.Var, path string) bool {
+		for _, w := range written {
+			if w.v == v && (w.path == path || strings.HasPrefix(path, w.path+".") || strings.HasPrefix(w.path, path+".") || path == "" || w.path == "") {
+				return true
+			}
+		}
+		return false
+	}
 	for i := range x.Lhs {
 		bad := false
-		ast.Inspect(x.Rhs[i], func(n ast.Node) bool {
-			if id, ok := n.(*ast.Ident); ok {
-				if v, ok := st.info.Uses[id].(*types.Var); ok && written[v] {
-					bad = true
+		var visit func(e ast.Node)
+		visit = func(e ast.Node) {
+			ast.Inspect(e, func(n ast.Node) bool {
+				switch y := n.(type) {
+				case *ast.SelectorExpr:
+					if sel := st.info.Selections[y]; sel != nil && sel.Kind() == types.FieldVal {
+						if r, pth := FieldPath(st.info, y); r != nil {
+							if conflict(r, pth) {
+								bad = true
+							}
+							return false
+						}
+					}
+				case *ast.Ident:
+					if v, ok := st.info.Uses[y].(*types.Var); ok && conflict(v, "") {
+						bad = true
+					}
 				}
-			}
-			return true
-		})
+				return true
+			})
+		}
+		visit(x.Rhs[i])
 		if bad {
 			return nil
 		}
-		if v := RootVar(st.info, x.Lhs[i]); v != nil {
-			written[v] = true
+		l := ast.Unparen(x.Lhs[i])
+		if stx, ok := l.(*ast.StarExpr); ok {
+			l = ast.Unparen(stx.X)
+		}
+		if r, pth := FieldPath(st.info, l); r != nil {
+			written = append(written, loc{r, pth})
 		} else if id, ok := x.Lhs[i].(*ast.Ident); !ok || id.Name != "_" {
 			return nil
 		}
@@ -1441,4 +1478,88 @@ func (st *inlineState) negate(c ast.Expr) ast.Expr {
 	st.info.Types[n] = types.TypeAndValue{Type: types.Typ[types.Bool]}
 	st.info.Types[n.X] = types.TypeAndValue{Type: types.Typ[types.Bool]}
 	return n
+}
+
+
+// indexToRange: `for i := 0; i < len(X); i++ { v := X[i]; … }` with a pure X
+// that the body neither assigns nor appends to, and an i the body does not
+// modify, is `for i, v := range X { … }`.
+func (st *inlineState) indexToRange(x *ast.ForStmt) ast.Stmt {
+	init, ok := x.Init.(*ast.AssignStmt)
+	if !ok || init.Tok != token.DEFINE || len(init.Lhs) != 1 || len(init.Rhs) != 1 {
+		return nil
+	}
+	iv, _ := st.info.Defs[init.Lhs[0].(*ast.Ident)].(*types.Var)
+	if tv := st.info.Types[init.Rhs[0]]; iv == nil || tv.Value == nil || tv.Value.String() != "0" {
+		return nil
+	}
+	cond, ok := ast.Unparen(x.Cond).(*ast.BinaryExpr)
+	if !ok || cond.Op != token.LSS || VarOf(st.info, cond.X) != iv {
+		return nil
+	}
+	lc, ok := ast.Unparen(cond.Y).(*ast.CallExpr)
+	if !ok || len(lc.Args) != 1 {
+		return nil
+	}
+	if id, ok := lc.Fun.(*ast.Ident); !ok || id.Name != "len" {
+		return nil
+	}
+	coll := lc.Args[0]
+	post, ok := x.Post.(*ast.IncDecStmt)
+	if !ok || post.Tok != token.INC || VarOf(st.info, post.X) != iv {
+		return nil
+	}
+	pure := true
+	ast.Inspect(coll, func(n ast.Node) bool {
+		switch n.(type) {
+		case *ast.CallExpr, *ast.IndexExpr, *ast.StarExpr:
+			pure = false
+		}
+		return true
+	})
+	if !pure || len(x.Body.List) == 0 {
+		return nil
+	}
+	first, ok := x.Body.List[0].(*ast.AssignStmt)
+	if !ok || first.Tok != token.DEFINE || len(first.Lhs) != 1 || len(first.Rhs) != 1 {
+		return nil
+	}
+	ix, ok := ast.Unparen(first.Rhs[0]).(*ast.IndexExpr)
+	if !ok || VarOf(st.info, ix.Index) != iv || types.ExprString(ix.X) != types.ExprString(coll) {
+		return nil
+	}
+	collRoot, collPath := FieldPath(st.info, coll)
+	if collRoot == nil {
+		return nil
+	}
+	bad := false
+	for _, s := range x.Body.List[1:] {
+		ast.Inspect(s, func(n ast.Node) bool {
+			switch y := n.(type) {
+			case *ast.AssignStmt:
+				for _, l := range y.Lhs {
+					if VarOf(st.info, l) == iv {
+						bad = true
+					}
+					if r, pth := FieldPath(st.info, l); r == collRoot && (pth == collPath || strings.HasPrefix(collPath, pth+".") || pth == "") {
+						bad = true
+					}
+				}
+			case *ast.IncDecStmt:
+				if VarOf(st.info, y.X) == iv {
+					bad = true
+				}
+			case *ast.UnaryExpr:
+				if y.Op == token.AND && VarOf(st.info, y.X) == iv {
+					bad = true
+				}
+			}
+			return true
+		})
+	}
+	if bad {
+		return nil
+	}
+	return &ast.RangeStmt{For: x.For, Key: init.Lhs[0], Value: first.Lhs[0], TokPos: init.TokPos, Tok: token.DEFINE, X: coll,
+		Body: &ast.BlockStmt{Lbrace: x.Body.Lbrace, List: x.Body.List[1:], Rbrace: x.Body.Rbrace}}
 }
